@@ -21,6 +21,36 @@ let handler r =
        | Fuel, _, _ | _, Fuel, _ | _, _, Fuel -> put_w "FUEL"
        | OOB, _, _ | _, OOB, _ | _, _, OOB -> put_w "OOB"
        | _ -> put_w "EXIT")
+  | "session" -> let m = table r in
+      let n = integer r in
+      let rec steps k = if k = 0 then [] else
+        let w = word r in
+        let o = (match w with
+          | "sys" -> SSys | "vecs" -> SVecs | "vals" -> SVals | "qr" -> SQR
+          | "swap" -> let i = integer r in let j = integer r in SSwap (nat_of_int i, nat_of_int j)
+          | "dswap" -> let i = integer r in let j = integer r in SDswap (nat_of_int i, nat_of_int j)
+          | "neg" -> SNeg | "scale" -> SScale (ldexp 1.0 (integer r)) | "transp" -> STransp | "copy" -> SCopy | "other" -> SOther
+          | _ -> failwith "unknown_step") in
+        o :: steps (k - 1) in
+      let ops = steps n in
+      let (outs, _) = session fops m ops in
+      let bad = List.fold_left (fun acc o -> match acc, o with
+          | Some _, _ -> acc
+          | None, (OSys (Ok _) | OVecs (Ok _) | OVals (Ok _) | OQR (Ok _) | ONone) -> None
+          | None, (OSys Fuel | OVecs Fuel | OVals Fuel | OQR Fuel) -> Some "FUEL"
+          | None, (OSys OOB | OVecs OOB | OVals OOB | OQR OOB) -> Some "OOB"
+          | None, _ -> Some "EXIT") None outs in
+      (match bad with
+       | Some wd -> put_w wd
+       | None ->
+           List.iter (function
+             | OSys (Ok ps) -> put_fl (List.map fst ps); put_i (List.length ps); List.iter (fun (_, v) -> put_fl v) ps
+             | OVecs (Ok ps) -> put_i (List.length ps); List.iter (fun (_, v) -> put_fl v) ps
+             | OVals (Ok evs) -> put_fl evs
+             | OQR (Ok (q, rr)) -> put_mat q; put_mat rr
+             | _ -> ()) outs;
+           (* the model's calls are functions of the value: the objects hold what the caller wrote *)
+           put_i 1)
   | "rayleigh" -> let m = table r in let ev = num r in
       put_res (fun (e, v) -> put_f e; put_fl v) (find_eigenvector_rayleigh fops m ev)
   | "det" -> let m = table r in put_f (determinant fops (nrows m) m)
